@@ -131,6 +131,9 @@ fn scan_run(rec: &mut Recorder, arm: Option<Arm>, pssm_cells: &[Vec<i64>], ranks
     if l < m { return; }
     let pssm = build_pssm::<A>(pssm_cells);
     let mut seq = build_seq::<A, U32>(ranks, 0);
+    // one striped sequence is usually scanned with several motifs: every other one was configured for a LONGER motif
+    // before, every third one for a shorter one
+    if tsel % 2 == 0 { seq.configure_wrap(m + 2 + tsel % 5); } else if tsel % 3 == 0 && m >= 3 { seq.configure_wrap(m - 2); }
     seq.configure(&pssm);
     let n = l - m + 1;
     let mut real: Vec<f32> = (0..n).map(|i| pssm.score_position(&seq, i)).filter(|x| x.is_finite()).collect();
